@@ -73,31 +73,37 @@ Fixpoint gj (steps k : nat) (prev : bigZ) (done todo : list zvec) : option (list
 Definition idrow (n i : nat) : zvec := map (fun j => if Nat.eqb i j then BigZ.one else BigZ.zero) (seq 0 n).
 Definition common_den (A : qmat) : positive :=
   fold_right (fun r acc => fold_right (fun x a => Z.to_pos (Z.lcm (Zpos (Qden x)) (Zpos a))) acc r) 1%positive A.
-Definition binv (A : qmat) : option (list bvec) :=
+(* integer image of A (A = AZ / L), the eliminated right half R and the last pivot det: A^-1 = L * R / det *)
+Definition binv_parts (A : qmat) : option (list zvec * list zvec * bigZ * positive) :=
   let n := length A in
   let L := common_den A in
   let AZ := map (map (fun x => BigZ.of_Z (Qnum x * (Zpos L / Zpos (Qden x))))) A in
   match gj n 0 BigZ.one [] (map (fun ir => snd ir ++ idrow n (fst ir)) (combine (seq 0 n) AZ)) with
-  | Some (rows, det) =>
-      let LB := BigZ.of_Z (Zpos L) in
-      Some (map (fun row => map (fun x => BigQ.div_norm (BigQ.Qz (BigZ.mul LB x)) (BigQ.Qz det)) (skipn n row)) rows)
+  | Some (rows, det) => Some (AZ, map (skipn n) rows, det, L)
   | None => None
   end.
 
-(* K * Ki = I, exactly *)
-Definition bdot (a b : bvec) : bigQ := fold_right BigQ.add_norm BigQ.zero (zipWith BigQ.mul_norm a b).
-Definition transpose_b (n : nat) (A : list bvec) : list bvec :=
-  map (fun j => map (fun r => nth j r BigQ.zero) A) (seq 0 n).
-Definition is_right_inv_b (K Ki : list bvec) : bool :=
-  let KiT := transpose_b (length Ki) Ki in
-  forallb (fun ir => forallb (fun jc =>
-     BigQ.eq_bool (bdot (snd ir) (snd jc)) (if Nat.eqb (fst ir) (fst jc) then BigQ.one else BigQ.zero))
-     (combine (seq 0 (length KiT)) KiT)) (combine (seq 0 (length K)) K).
+(* K * Ki = I, exactly, checked on the integers:  K = AZ / L  (every denominator divides L),  AZ * R = det * I,
+   det <> 0,  and Ki is built as  L * R / det  with Bignums' normalising division (specified by BigQ.spec_div_norm).
+   (Checking the product on normalised rationals instead costs 7 s for a 16 x 16 matrix; this takes 0.2 s.) *)
+Definition zdot (a b : zvec) : bigZ := fold_right BigZ.add BigZ.zero (zipWith BigZ.mul a b).
+Definition ztranspose (n : nat) (A : list zvec) : list zvec :=
+  map (fun j => map (fun r => nth j r BigZ.zero) A) (seq 0 n).
+Definition is_right_inv_z (A : qmat) (AZ R : list zvec) (det : bigZ) (L : positive) : bool :=
+  let RT := ztranspose (length R) R in
+  (znz det
+   && forallb (fun r => forallb (fun x => Z.eqb (Zpos L / Zpos (Qden x) * Zpos (Qden x)) (Zpos L)) r) A
+   && forallb (fun ir => forallb (fun jc =>
+        BigZ.eqb (zdot (snd ir) (snd jc)) (if Nat.eqb (fst ir) (fst jc) then det else BigZ.zero))
+        (combine (seq 0 (length RT)) RT)) (combine (seq 0 (length AZ)) AZ))%bool.
 
 (* the oracle handed to the model: exact inverse (None when singular) and whether K * Ki = I was verified *)
 Definition binv_checked (A : qmat) : option (list bvec) * bool :=
-  match binv A with
-  | Some Bi => (Some Bi, is_right_inv_b (map (map bq) A) Bi)
+  match binv_parts A with
+  | Some (AZ, R, det, L) =>
+      let LB := BigZ.of_Z (Zpos L) in
+      (Some (map (map (fun x => BigQ.div_norm (BigQ.Qz (BigZ.mul LB x)) (BigQ.Qz det))) R),
+       is_right_inv_z A AZ R det L)
   | None => (None, true)
   end.
 Definition pd_b (d : phase_data Qops) : phase_data BQops :=
